@@ -282,6 +282,16 @@ Fixpoint cleanup_loop (w : world) (files : list bytes) (index log_limit total : 
     else cleanup_loop w r (S index) log_limit total
   end.
 
+(* archives whose original is listed too (an interrupted compression): removed before the cleanup proper *)
+Definition redundant_gz (files : list bytes) : list bytes :=
+  filter (fun n => ext_is n gz_sfx && existsb (beq (set_extension n [])) files) files.
+Fixpoint remove_redundant (w : world) (red files : list bytes) : bool * world * list bytes :=
+  match red with
+  | [] => (true, w, files)
+  | n :: r => let '(ok, w1) := p_remove w n in
+              if ok then remove_redundant w1 r (filter (fun m => negb (beq m n)) files) else (false, w1, files)
+  end.
+
 (* remove_or_compress_too_old_logfiles_impl *)
 Definition cleanup_impl (c : config) (w : world) (k : cleanup) (flt : infix_filter) (direct : bool) : res unit * world :=
   match k with
@@ -293,8 +303,11 @@ Definition cleanup_impl (c : config) (w : world) (k : cleanup) (flt : infix_filt
     if fl then (Err, w1) else
     match list_log_gz (woff w1) (c_spec c) (fixed_of c w1) (wfs w1) flt with
     | None => (Panic, w1)
-    | Some files => let '(ok, w2) := cleanup_loop w1 files 0 ll (ll + cl) in
-                    ((if ok then Ok tt else Err), w2)
+    | Some files =>
+      let '(ok0, w1', files') := remove_redundant w1 (redundant_gz files) files in
+      if negb ok0 then (Err, w1') else
+      let '(ok, w2) := cleanup_loop w1' files' 0 ll (ll + cl) in
+      ((if ok then Ok tt else Err), w2)
     end
   end.
 
@@ -432,15 +445,39 @@ Definition roll_new (w : world) (crit : criterion) (append : bool) (path : bytes
   | Panic => (Panic, w1)
   end.
 
+(* infix_for_new_direct_file with append: the predecessor of the next free infix *)
+Definition newest_of_next (infix next : bytes) : option bytes :=
+  match strip_prefix (infix ++ restart_tag) next with
+  | None => None
+  | Some digits =>
+    match parse_uint usize_max digits with
+    | None => None
+    | Some 0%N => Some infix
+    | Some k => Some (infix ++ restart_tag ++ pad_left 4 48 (dec (k - 1)))
+    end
+  end.
+
 Definition init_naming (c : config) (w : world) (n : naming) : res (naming_state * bytes) * world :=
   let direct_ts fmt :=
     bind (latest_timestamp_file c w (negb (c_append c)) fmt)
          (fun ts w1 =>
             (* with append the file with the latest time stamp is continued; without, a new file is started
                under a name that does not exist yet (infix_for_new_direct_file) *)
-            if c_append c then (Ok (NSTs ts None fmt, infix_from_ts c w1 fmt ts), w1)
-            else bind (collision_free c w1 (infix_from_ts c w1 fmt ts))
-                      (fun i w2 => (Ok (NSTs ts None fmt, i), w2))) in
+            let infix := infix_from_ts c w1 fmt ts in
+            bind (collision_free c w1 infix)
+                 (fun next w2 =>
+                    if c_append c then
+                      (* the newest file with this time stamp - possibly a restart sibling - is continued if it is
+                         there as a plain file *)
+                      match newest_of_next infix next with
+                      | None => (Ok (NSTs ts None fmt, next), w2)
+                      | Some newest =>
+                        match lookup (wfs w2) (name_of c w2 (Some newest)) with
+                        | Some _ => (Ok (NSTs ts None fmt, newest), w2)
+                        | None => (Ok (NSTs ts None fmt, next), w2)
+                        end
+                      end
+                    else (Ok (NSTs ts None fmt, next), w2))) in
   let current_ts cur fmt :=
     bind (creation_ts_of_current c w cur (negb (c_append c)) None fmt)
          (fun ts w1 => (Ok (NSTs ts (Some cur) fmt, cur), w1)) in
